@@ -72,6 +72,28 @@ func filterImage(image bufimage.Image, options *imageFilterOptions) (bufimage.Im
 	if err := closure.addExtensions(imageIndex, options); err != nil {
 		return nil, err
 	}
+	// Without included types, an imported file that is still used is kept as a
+	// whole. Add all of its types, so that the files they need are kept as well
+	// and so that its methods and extensions that use an excluded type are dropped.
+	for added := len(options.includeTypes) == 0; added; {
+		added = false
+		for _, file := range image.Files() {
+			fileDescriptorProto := file.FileDescriptorProto()
+			if _, isUsed := closure.imports[file.Path()]; !isUsed || !file.IsImport() {
+				continue
+			}
+			if mode := closure.elements[fileDescriptorProto]; mode == inclusionModeExcluded || mode == inclusionModeExplicit {
+				continue
+			}
+			if err := closure.addElement(fileDescriptorProto, "", false, imageIndex, options); err != nil {
+				return nil, err
+			}
+			added = true
+		}
+		if err := closure.addExtensions(imageIndex, options); err != nil {
+			return nil, err
+		}
+	}
 
 	// Loop over image files in revserse DAG order. Imports that are no longer
 	// imported by a previous file are dropped from the image.
